@@ -1,5 +1,6 @@
 mod c04;
 mod c12;
+mod c11;
 mod c13;
 mod c14;
 mod c15;
@@ -32,6 +33,7 @@ fn main() {
         "c01" | "c03" | "c10" => storetrace::run(&out, seed, thorough, &cmd),
         "c04" => c04::run(&out, seed, thorough),
         "c12" => c12::run(&out, seed, thorough),
+        "c11" => c11::run(&out, seed, thorough),
         "c13" => c13::run(&out, seed, thorough),
         "c14" => c14::run(&out, seed, thorough),
         "c14-probe" => c14::probe_main(),
